@@ -44,8 +44,8 @@ def fn_inotify_AddWith : List SkOp := [
     ⟨"ifEnd", "", [], []⟩,
     ⟨"call", "getOptions", [], []⟩,
     ⟨"call", "xSupports", [], []⟩,
-    ⟨"ifBegin", "!%1.xSupports(%2.op)", [], []⟩,
-    ⟨"ret", "fmt.Errorf(\"%w: %s\", xErrUnsupported, %1.op)", [], []⟩,
+    ⟨"ifBegin", "!%1.xSupports(%2.·)", [], []⟩,
+    ⟨"ret", "fmt.Errorf(\"%w: %s\", xErrUnsupported, %1.·)", [], []⟩,
     ⟨"ifEnd", "", [], []⟩,
     ⟨"lock", "mu", [], []⟩,
     ⟨"deferUnlock", "mu", [], ["mu"]⟩,
@@ -63,7 +63,7 @@ def fn_inotify_AddWith : List SkOp := [
     ⟨"ret", "%1", [], ["mu"]⟩,
     ⟨"ifEnd", "", [], ["mu"]⟩,
     ⟨"ifBegin", "%1.IsDir()", [], ["mu"]⟩,
-    ⟨"ifBegin", "%1.sendCreate&&%2!=%3", [], ["mu"]⟩,
+    ⟨"ifBegin", "%1.·&&%2!=%3", [], ["mu"]⟩,
     ⟨"call", "sendEvent", [], ["mu"]⟩,
     ⟨"ifEnd", "", [], ["mu"]⟩,
     ⟨"call", "AddWith$add", [], ["mu"]⟩,
@@ -74,38 +74,38 @@ def fn_inotify_AddWith : List SkOp := [
     ⟨"ifEnd", "", [], ["mu"]⟩,
     ⟨"ret", "nil", [], ["mu"]⟩,
     ⟨"litEnd", "", [], ["mu"]⟩,
-    ⟨"ret", "filepath.WalkDir(%1, func(%2 string, %3 fs.DirEntry, %4 error) error { if %4!=nil { return %4 } if !%3.IsDir() { if %2==%1 { return fmt.Errorf(\"fsnotify: not a directory: %q\", %1) } return nil } if %5.sendCreate&&%2!=%1 { %6.sendEvent(…) } return %7(%2, %5, true) })", [], ["mu"]⟩
+    ⟨"ret", "filepath.WalkDir(%1, func(%2 string, %3 fs.DirEntry, %4 error) error { if %4!=nil { return %4 } if !%3.IsDir() { if %2==%1 { return fmt.Errorf(\"fsnotify: not a directory: %q\", %1) } return nil } if %5.·&&%2!=%1 { %6.sendEvent(…) } return %7(%2, %5, true) })", [], ["mu"]⟩
 ]
 
 def fn_inotify_AddWith_add : List SkOp := [
-    ⟨"ifBegin", "%1.noFollow", [], []⟩,
+    ⟨"ifBegin", "%1.·", [], []⟩,
     ⟨"ifEnd", "", [], []⟩,
     ⟨"call", "Has", [], []⟩,
-    ⟨"ifBegin", "%1.op.Has(Create)", [], []⟩,
+    ⟨"ifBegin", "%1.·.Has(Create)", [], []⟩,
     ⟨"ifEnd", "", [], []⟩,
     ⟨"call", "Has", [], []⟩,
-    ⟨"ifBegin", "%1.op.Has(Write)", [], []⟩,
+    ⟨"ifBegin", "%1.·.Has(Write)", [], []⟩,
     ⟨"ifEnd", "", [], []⟩,
     ⟨"call", "Has", [], []⟩,
-    ⟨"ifBegin", "%1.op.Has(Remove)", [], []⟩,
+    ⟨"ifBegin", "%1.·.Has(Remove)", [], []⟩,
     ⟨"ifEnd", "", [], []⟩,
     ⟨"call", "Has", [], []⟩,
-    ⟨"ifBegin", "%1.op.Has(Rename)", [], []⟩,
+    ⟨"ifBegin", "%1.·.Has(Rename)", [], []⟩,
     ⟨"ifEnd", "", [], []⟩,
     ⟨"call", "Has", [], []⟩,
-    ⟨"ifBegin", "%1.op.Has(Chmod)", [], []⟩,
+    ⟨"ifBegin", "%1.·.Has(Chmod)", [], []⟩,
     ⟨"ifEnd", "", [], []⟩,
     ⟨"call", "Has", [], []⟩,
-    ⟨"ifBegin", "%1.op.Has(xUnportableOpen)", [], []⟩,
+    ⟨"ifBegin", "%1.·.Has(xUnportableOpen)", [], []⟩,
     ⟨"ifEnd", "", [], []⟩,
     ⟨"call", "Has", [], []⟩,
-    ⟨"ifBegin", "%1.op.Has(xUnportableRead)", [], []⟩,
+    ⟨"ifBegin", "%1.·.Has(xUnportableRead)", [], []⟩,
     ⟨"ifEnd", "", [], []⟩,
     ⟨"call", "Has", [], []⟩,
-    ⟨"ifBegin", "%1.op.Has(xUnportableCloseWrite)", [], []⟩,
+    ⟨"ifBegin", "%1.·.Has(xUnportableCloseWrite)", [], []⟩,
     ⟨"ifEnd", "", [], []⟩,
     ⟨"call", "Has", [], []⟩,
-    ⟨"ifBegin", "%1.op.Has(xUnportableCloseRead)", [], []⟩,
+    ⟨"ifBegin", "%1.·.Has(xUnportableCloseRead)", [], []⟩,
     ⟨"ifEnd", "", [], []⟩,
     ⟨"call", "register", [], []⟩,
     ⟨"ret", "%1.register(%2, %3, %4)", [], []⟩
@@ -174,7 +174,7 @@ def fn_inotify_handleEvent : List SkOp := [
     ⟨"call", "remove", [], ["mu"]⟩,
     ⟨"ifEnd", "", [], ["mu"]⟩,
     ⟨"ifBegin", "%1.Mask&unix.IN_MOVE_SELF==unix.IN_MOVE_SELF", [], ["mu"]⟩,
-    ⟨"ifBegin", "%1.recurse", [], ["mu"]⟩,
+    ⟨"ifBegin", "%1.·", [], ["mu"]⟩,
     ⟨"ret", "Event{}, true", [], ["mu"]⟩,
     ⟨"ifEnd", "", [], ["mu"]⟩,
     ⟨"call", "remove", [], ["mu"]⟩,
@@ -192,7 +192,7 @@ def fn_inotify_handleEvent : List SkOp := [
     ⟨"ifEnd", "", [], ["mu"]⟩,
     ⟨"ifEnd", "", [], ["mu"]⟩,
     ⟨"call", "newEvent", [], ["mu"]⟩,
-    ⟨"ifBegin", "%1.recurse", [], ["mu"]⟩,
+    ⟨"ifBegin", "%1.·", [], ["mu"]⟩,
     ⟨"call", "Has", [], ["mu"]⟩,
     ⟨"ifBegin", "%1.Mask&unix.IN_ISDIR==unix.IN_ISDIR&&%2.Has(Create)", [], ["mu"]⟩,
     ⟨"call", "register", [], ["mu"]⟩,
@@ -200,10 +200,10 @@ def fn_inotify_handleEvent : List SkOp := [
     ⟨"ifBegin", "!%1.sendError(…)", [], ["mu"]⟩,
     ⟨"ret", "Event{}, false", [], ["mu"]⟩,
     ⟨"ifEnd", "", [], ["mu"]⟩,
-    ⟨"ifBegin", "%1.renamedFrom!=\"\"", [], ["mu"]⟩,
+    ⟨"ifBegin", "%1.·!=\"\"", [], ["mu"]⟩,
     ⟨"table", "watches.wd", [], ["mu"]⟩,
     ⟨"loopBegin", "range %1.watches.wd", [], ["mu"]⟩,
-    ⟨"ifBegin", "%1.path==%2.renamedFrom||strings.HasPrefix(%1.path, %2.renamedFrom+\"/\")", [], ["mu"]⟩,
+    ⟨"ifBegin", "%1.·==%2.·||strings.HasPrefix(%1.·, %2.·+\"/\")", [], ["mu"]⟩,
     ⟨"table", "watches.path", [], ["mu"]⟩,
     ⟨"table", "watches.path", [], ["mu"]⟩,
     ⟨"ifEnd", "", [], ["mu"]⟩,
@@ -219,7 +219,7 @@ def fn_inotify_isRecursive : List SkOp := [
     ⟨"ifBegin", "%1==nil", [], []⟩,
     ⟨"call", "byPath", [], []⟩,
     ⟨"ifEnd", "", [], []⟩,
-    ⟨"ret", "%1!=nil&&%1.recurse", [], []⟩
+    ⟨"ret", "%1!=nil&&%1.·", [], []⟩
 ]
 
 def fn_inotify_newEvent : List SkOp := [
@@ -257,7 +257,7 @@ def fn_inotify_newEvent : List SkOp := [
     ⟨"lock", "cookiesMu", [], []⟩,
     ⟨"table", "cookies", [], ["cookiesMu"]⟩,
     ⟨"loopBegin", "range %1.cookies", [], ["cookiesMu"]⟩,
-    ⟨"ifBegin", "%1.cookie==%2", [], ["cookiesMu"]⟩,
+    ⟨"ifBegin", "%1.·==%2", [], ["cookiesMu"]⟩,
     ⟨"branch", "break", [], ["cookiesMu"]⟩,
     ⟨"ifEnd", "", [], ["cookiesMu"]⟩,
     ⟨"loopEnd", "", [], ["cookiesMu"]⟩,
@@ -326,7 +326,7 @@ def fn_inotify_register : List SkOp := [
     ⟨"ifBegin", "%1==-1", [], []⟩,
     ⟨"ret", "nil, %1", [], []⟩,
     ⟨"ifEnd", "", [], []⟩,
-    ⟨"ifBegin", "%1!=nil&&%1.wd!=uint32(%2)", [], []⟩,
+    ⟨"ifBegin", "%1!=nil&&%1.·!=uint32(%2)", [], []⟩,
     ⟨"sys", "InotifyRmWatch", ["w.fd"], []⟩,
     ⟨"ifEnd", "", [], []⟩,
     ⟨"table", "watches.wd", [], []⟩,
@@ -339,7 +339,7 @@ def fn_inotify_register : List SkOp := [
     ⟨"ret", "%1, nil", [], []⟩,
     ⟨"litEnd", "", [], []⟩,
     ⟨"call", "updatePath", [], []⟩,
-    ⟨"ret", "%1.watches.updatePath(%2, func(%3*watch) (*watch, error) { if %3!=nil { %4|= %3.flags|unix.IN_MASK_ADD } %5, %6 := unix.InotifyAddWatch(%1.fd, %2, %4) if %5==-1 { return nil, %6 } if %3!=nil&&%3.wd!=uint32(%5) { unix.InotifyRmWatch(%1.fd, %3.wd) } if %7, %8 := %1.watches.wd[uint32(%5)]; %8 { return %7, nil } if %3==nil { return&watch{ wd: uint32(%5), path: %2, flags: %4, recurse: %9, }, nil } %3.wd = uint32(%5) %3.flags = %4 return %3, nil })", [], []⟩
+    ⟨"ret", "%1.watches.updatePath(%2, func(%3*watch) (*watch, error) { if %3!=nil { %4|= %3.·|unix.IN_MASK_ADD } %5, %6 := unix.InotifyAddWatch(%1.fd, %2, %4) if %5==-1 { return nil, %6 } if %3!=nil&&%3.·!=uint32(%5) { unix.InotifyRmWatch(%1.fd, %3.·) } if %7, %8 := %1.watches.wd[uint32(%5)]; %8 { return %7, nil } if %3==nil { return&watch{ wd: uint32(%5), path: %2, flags: %4, recurse: %9, }, nil } %3.· = uint32(%5) %3.· = %4 return %3, nil })", [], []⟩
 ]
 
 def fn_inotify_remove : List SkOp := [
@@ -470,12 +470,12 @@ def fn_watches_removePath : List SkOp := [
     ⟨"ret", "nil, fmt.Errorf(\"%w: %s\", ErrNonExistentWatch, %1)", [], []⟩,
     ⟨"ifEnd", "", [], []⟩,
     ⟨"table", "watches.wd", [], []⟩,
-    ⟨"ifBegin", "%1&&!%2.recurse", [], []⟩,
+    ⟨"ifBegin", "%1&&!%2.·", [], []⟩,
     ⟨"ret", "nil, fmt.Errorf(\"can't use/... with non-recursive watch %q\", %1)", [], []⟩,
     ⟨"ifEnd", "", [], []⟩,
     ⟨"table", "watches.path", [], []⟩,
     ⟨"table", "watches.wd", [], []⟩,
-    ⟨"ifBegin", "!%1.recurse", [], []⟩,
+    ⟨"ifBegin", "!%1.·", [], []⟩,
     ⟨"ret", "[]uint32{%1}, nil", [], []⟩,
     ⟨"ifEnd", "", [], []⟩,
     ⟨"table", "watches.path", [], []⟩,
@@ -500,9 +500,9 @@ def fn_watches_updatePath : List SkOp := [
     ⟨"ifBegin", "%1!=nil", [], []⟩,
     ⟨"table", "watches.wd", [], []⟩,
     ⟨"table", "watches.path", [], []⟩,
-    ⟨"ifBegin", "%1.wd!=%2", [], []⟩,
+    ⟨"ifBegin", "%1.·!=%2", [], []⟩,
     ⟨"table", "watches.wd", [], []⟩,
-    ⟨"ifBegin", "%1&&%2.path!=%3", [], []⟩,
+    ⟨"ifBegin", "%1&&%2.·!=%3", [], []⟩,
     ⟨"table", "watches.path", [], []⟩,
     ⟨"ifEnd", "", [], []⟩,
     ⟨"ifEnd", "", [], []⟩,
